@@ -202,6 +202,16 @@ def design_split(spec):
         ins += [other.clk, other.rst]
         top.d.sync += o[:k].eq(o[:k] + i[:k])
         top.d.other += o[k:].eq(i[k:])
+    elif kind == "part+sync":
+        # a part select with a narrow offset drives only the bits it can reach; the others belong to a clocked driver elsewhere
+        sel = Signal(1, name="sel")
+        ins.append(sel)
+        pw = min(2, w - 2)
+        child = Module()
+        child.d.comb += o.bit_select(sel, pw).eq(i[:pw])
+        top.submodules.child = child
+        top.d.sync += o[pw + 1:].eq(o[pw + 1:] + i[pw + 1:])
+        k = pw + 1
     else:
         child = Module()
         child.d.sync += o[:k].eq(i[:k])
@@ -240,6 +250,21 @@ class Matched:
             if s.name:
                 self.by_name.setdefault(s.name, []).append(s)
         self.alias = self._alias_classes()
+        # Which bits are registers is read off the netlist (the Q bits of its flip-flops), not off the masks the simulator
+        # computes for its own processes: a bit the simulator wrongly treats as combinationally driven would otherwise be
+        # pinned to its initial value and never explored.
+        try:
+            for ci in self.R.state_cells()["dff"]:
+                name, kind, params, ports = self.R.cells[ci]
+                for (w, bq) in self.R._lhs_bits(ports["\\Q"]):
+                    sig, sb = self.signal_of_wire_bit(w, bq)
+                    if sig is None:
+                        continue
+                    slot = self.sim.slot(sig)
+                    self.sim.comb_mask[slot] = self.sim.comb_mask.get(slot, 0) & ~(1 << sb)
+                    self.sim.sync_mask[slot] = self.sim.sync_mask.get(slot, 0) | (1 << sb)
+        except (rtlil_smt.Unsupported, KeyError):
+            pass
 
     def _alias_classes(self):
         """Union-find over wire bits joined by connects (hierarchy ports, aliases)."""
@@ -610,6 +635,19 @@ def check_design(job):
                     for i, t in enumerate(rows):
                         if t is not None:
                             pairs.append((f"mem {mname}[{i}]", t, post["mem"][mname][i]))
+                # registers and memory rows are state: when only data inputs change afterwards (no clock or reset event), the
+                # combinational logic is re-evaluated and every register must keep the value it just took
+                from vlib.pysym import fresh as _fresh
+                for sg_ in M.ins:
+                    if sim.is_clock(sg_) or any(sg_ is r_ for r_ in sim.reset_signals) or len(sg_) == 0 or any(sg_ is c_[0] for c_ in changes):
+                        continue
+                    sim.set(sg_, _fresh(f"in2_{sg_.name}", len(sg_), sg_.shape().signed))
+                sim.engine.step_design()
+                post2, _ = M.rtlil_state_from_sim()
+                for k in ("dff", "memrd"):
+                    for name, t in post[k].items():
+                        if t is not None and post2[k].get(name) is not None:
+                            pairs.append((f"{k} {name} (must hold while only data inputs change)", t, post2[k][name]))
             excluded = list(R.excluded)
             R.excluded.clear()
             return pairs, unmapped, excluded
@@ -748,6 +786,17 @@ def concrete_compare(spec, vals, desc, changes_desc):
             real["post"] = {s.name: ctx.get(s) for s in state_sigs if len(s)}
             real["post_mem"] = {id(slot.memory): [ctx.get(slot.memory[i]) for i in range(slot.memory.depth)]
                                 for slot in sim._engine._state.slots if hasattr(slot, "memory")}
+            if changes:
+                # second phase: only data inputs change (values "in2_<name>" of the model); registers must hold
+                for sg_ in ins:
+                    for k, v in vals.items():
+                        if k == f"in2_{sg_.name}" and len(sg_):
+                            w_ = len(sg_)
+                            v &= (1 << w_) - 1
+                            if sg_.shape().signed and v >> (w_ - 1):
+                                v -= 1 << w_
+                            ctx.set(sg_, v)
+                real["post2"] = {s.name: ctx.get(s) for s in state_sigs if len(s)}
         sim.add_testbench(tb)
         sim.run()
 
@@ -815,6 +864,14 @@ def concrete_compare(spec, vals, desc, changes_desc):
                 want = post["mem"][mname][i]
                 if not z3.is_bv_value(got) or got.as_long() != want.as_long():
                     differs.append(f"mem {mname}[{i}]: rtlil {got} simulator {want}")
+        if "post2" in real:
+            for k in ("dff", "memrd"):
+                sc = R.state_cells()
+                for ci in sc[k]:
+                    name, kind, params, ports = R.cells[ci]
+                    a_, b_ = from_real(ports["\\Q" if k == "dff" else "\\DATA"], "post"), from_real(ports["\\Q" if k == "dff" else "\\DATA"], "post2")
+                    if a_ is not None and b_ is not None and z3.is_bv_value(a_) and z3.is_bv_value(b_) and a_.as_long() != b_.as_long():
+                        differs.append(f"{k} {name} ({_q_name(R, name)}): simulator {a_} after the event, {b_} after data inputs changed (no clock event)")
     return {"differs": differs, "pre": real.get("pre"), "post": real.get("post")}
 
 
@@ -867,7 +924,7 @@ def families(tier, seed):
     for p in G.extension_programs() + G.reflected_programs():
         jobs.append({"family": "expr", "prog": p, "child": False})
     for k in range(16 if tier == "quick" else 200):
-        jobs.append({"family": "split", "seed": seed * 100 + k, "kind": ["sync+comb", "comb+sync", "two-domains", "two-modules"][k % 4],
+        jobs.append({"family": "split", "seed": seed * 100 + k, "kind": ["sync+comb", "comb+sync", "two-domains", "two-modules", "part+sync"][k % 5],
                      "async": k % 8 >= 4, "edge": "neg" if k % 3 == 0 else "pos"})
     gen = G.RandomExprs(seed + 7, 4, 2)
     for i in range(100 if tier == "quick" else 3000):
